@@ -124,8 +124,25 @@ def choose_observation(rng, c, rs, kinds=RL.KINDS, allow_weights=True, noise=Tru
     c.weights = None
     c.weight_arg = None
     if allow_weights and c.kind in ("Square", "Normal") and rng.random() < 0.5:
-        form = rng.choice(["scalar", "per-observation", "matrix", "per-state"] if p > 1 else ["scalar", "per-observation"])
-        if form == "scalar":
+        form = rng.choice(["scalar", "per-observation", "matrix", "per-state", "matrix-mask", "matrix-mask"] if p > 1
+                          else ["scalar", "per-observation", "per-observation-mask"])
+        if form in ("matrix-mask", "per-observation-mask"):
+            # 0/1 (sometimes 0/2) masks as used for data streams reported on different schedules: zero entries, partially
+            # masked rows and (p > 1) fully masked rows; held as float, integer or boolean arrays
+            hi_w = rng.choice([1, 1, 2])
+            W = np.array([[rng.choice([0, hi_w, hi_w]) for _ in range(p)] for _ in range(n)])
+            if p > 1:
+                W[rng.randrange(n)] = [0] + [hi_w] * (p - 1)          # at least one partially masked row
+                if n > 3:
+                    W[rng.randrange(n)] = 0                            # and one fully masked row
+                    W[rng.randrange(n)] = [0] + [hi_w] * (p - 1)
+            if not W.any():
+                W[0, 0] = hi_w
+            dt = rng.choice([float, int, bool]) if hi_w == 1 else rng.choice([float, int])
+            c.weights = W.astype(float)
+            c.weight_arg = W.astype(dt) if p > 1 else W.astype(dt)[:, 0]
+            c.weight_dtype = dt.__name__
+        elif form == "scalar":
             v = rng.choice([0.5, 2.0, 3.0])
             c.weight_arg, c.weights = v, np.full((n, p), v)
         elif form == "per-observation" and p == 1:
